@@ -724,14 +724,14 @@ func drive(p *Prop, tier string) int {
 	writeEvidence(p, agg, tier, wall, len(fresh), known, machineErrs)
 	fmt.Printf("%s %s: evaluations=%d distinct_nontrivial=%d exhaustive=%v violations=%d known=%d crashes=%d wall=%.1fs\n",
 		p.ID, tier, agg.Evals, agg.NonTrivial, !agg.Expired, len(fresh), len(known), agg.Crashes, wall)
-	if len(machineErrs) > 0 {
-		for _, e := range machineErrs {
-			fmt.Fprintf(os.Stderr, "ERROR %s: %s\n", p.ID, trunc(e, 1500))
-		}
-		return 2
+	for _, e := range machineErrs {
+		fmt.Fprintf(os.Stderr, "ERROR %s: %s\n", p.ID, trunc(e, 1500))
 	}
 	if len(fresh) > 0 {
-		return 1
+		return 1 // a violation was demonstrated, whatever else went wrong
+	}
+	if len(machineErrs) > 0 {
+		return 2
 	}
 	return 0
 }
